@@ -68,7 +68,7 @@ func raceOnce(h History) Observed {
 	svc, err := standardattester.New(ctx,
 		standardattester.WithLogLevel(zerolog.Disabled),
 		standardattester.WithMonitor(nullmetrics.New()),
-		standardattester.WithProcessConcurrency(1),
+		standardattester.WithProcessConcurrency(h.Concurrency()),
 		standardattester.WithChainTime(mocks.NewChainTime(h.SPE)),
 		standardattester.WithSpecProvider(specProvider{h.SPE}),
 		standardattester.WithAttestationDataProvider(e),
